@@ -1042,6 +1042,8 @@ class Emit:
         if m == "map_or" and len(args) == 2 and args[1][0] == "closure" and len(args[1][1]) == 1:
             p = self.pat(args[1][1][0])
             return (f"(match {self.ex(recv)} with | some {p} => {self.ex(args[1][2])} | none => {self.ex(args[0])})", False, False)
+        if m == "unwrap" and not args and recv[0] == "mcall" and recv[2] == "lock" and not recv[3]:
+            return (self.ex(recv[1]), False, False)          # `m.lock().unwrap()`: the guard IS the value (mutexes are not modelled)
         if m == "unwrap" and not args: return (f"(Rs.unwrap {self.atom(recv)})", False, False)
         fn_name = self.unit.get("method_map", {}).get(m, f"Rs.{lname(m)}")      # per-unit meaning of a std method name
         return ("(" + " ".join([fn_name, self.atom(recv)] + [self.atom(x) for x in args]) + ")", False, False)
@@ -1105,7 +1107,23 @@ class Emit:
                     if g2 is None and q[0] == "or": continue
                 if nxt is None: raise Unsupported("match guard without a later arm that covers the same values")
                 q, _, b2 = arms[nxt]
-                if q[0] == "bind": raise Unsupported("match guard falling through to a binding pattern")
+                # a constructor the unit VIEWS through a predicate (spec `pat_views`, e.g. `SyncError::Io(ref e)` = any error `e`
+                # with `is_io e`): the pattern binds the whole value and the predicate joins the guard
+                def unview(pt, extra):
+                    if pt[0] == "pctor" and pt[2] is not None:
+                        key = "::".join(pt[1][-2:])
+                        if key in self.unit.get("pat_views", {}) and len(pt[2]) == 1 and pt[2][0][0] == "bind":
+                            extra.append(("call", ("path", [self.unit["pat_views"][key]]), [("path", [pt[2][0][1]])])); return pt[2][0]
+                        return ("pctor", pt[1], [unview(a, extra) for a in pt[2]])
+                    return pt
+                extra = []; p = unview(p, extra)
+                for x in extra: g = ("bin", "&&", x, g)
+                if q[0] == "bind":
+                    # fall-through to a binding catch-all `x => B`: name the scrutinee first
+                    self.qn += 1; sv = f"__scr{self.qn}"
+                    self.pre.append(f"let {sv} := {self.ex(scr)}")
+                    scr = ("path", [sv])
+                    b2 = ("block", [("let", q, False, None, ("path", [sv]), None)] + (b2[1] if b2[0] == "block" else []), (b2[2] if b2[0] == "block" else b2))
                 bb = b if b[0] == "block" else ("block", [], b)
                 eb = b2 if b2[0] == "block" else ("block", [], b2)
                 if q != p and self.pat_covers(q, p):
@@ -1282,6 +1300,9 @@ class Emit:
             raw, buf, target, decl = pr
             self.qn += 1; q = f"__r{self.qn}"
             return [ind + f"let {q} ← {raw}", ind + f"{buf} := {q}.2", ind + (f"{decl} {target} := {q}.1" if decl else f"{target} := {q}.1")]
+        if s[0] == "let" and s[1][0] == "bind" and s[4] is not None and s[4][0] == "mcall" and s[4][2] == "unwrap" and not s[4][3] \
+           and s[4][1][0] == "mcall" and s[4][1][2] == "lock" and s[4][1][1] == ("path", [s[1][1]]):
+            return []          # `let mut v = v.lock().unwrap();` — the guard shadows the mutex: updates go to `v` itself
         if s[0] == "let":
             _, p, mut, ty, init, els = s
             te = self.unit.get("typed_externs", [])
@@ -1467,6 +1488,21 @@ class Emit:
             return f"def {ln} " + " ".join(f"({n} : {t})" for n, t, *m in it["params"]) + f" : {rty} := Id.run do\n" + "\n".join(L)
         finally:
             self.mut_params = []
+    def fragfx_fn(self, key, ln, it):
+        self.cur_fn = key.split(" @ ")[0]; self.cur_owner = it["owner"] or ""; self.cur_result = False; self.cur_self = None
+        self.cur_ret_unit = False; self.ret_self_only = False; self.cur_uses_ext = True; self.cur_opt = False; self.mut_params = []
+        muts = [n for n, t, *m in it["params"] if m]
+        e = it["expr"]
+        L = [f"  let mut {n} := {n}" for n in muts]
+        if e[0] in ("if", "iflet", "match", "block") and not self.pure_expr(e):
+            L.append("  let __res ←"); L += self.branching_or_block(e, "    ", "val")
+        else:
+            saved = self.pre; self.pre = []
+            v = self.ex(e); L += ["  " + x for x in self.pre] + [f"  let __res := {v}"]; self.pre = saved
+        L.append("  return " + ("(" + ", ".join(["__res"] + muts) + ")" if muts else "__res"))
+        rty = it["rty"] if not muts else "(" + " × ".join([it["rty"]] + [t for n, t, *m in it["params"] if m]) + ")"
+        self.fns_using_ext.add(ln)
+        return f"def {ln} {{W : Type}} (ext : Ext W) " + " ".join(f"({n} : {t})" for n, t, *m in it["params"]) + f" : Rs.M W {rty} := do\n" + "\n".join(L)
     def fn(self, key, ln, it):
         self.mut_params = []
         self.cur_fn = key; self.cur_owner = it["owner"] or ""
@@ -1596,6 +1632,17 @@ def translate_unit(unit, repo):
             if c is None: raise Unsupported(f"{f}: `{key}`: no closure in fragment `{sel}`")
             decls.append(("closure", key + " @ " + sel, ln, {"closure": c, "params": params, "rty": rty, "owner": its[key]["owner"]}, f))
             continue
+        if ent[0] == "fragfx":
+            # ("fragfx", file, fn, selector, lean name, [(param, lean type[, "mut"])], lean result type): an EFFECTFUL fragment — the
+            # selected initialiser run in the unit's monad; parameters marked "mut" are captured mutable variables, threaded
+            # (the function answers (result, var'…))
+            _, f, key, sel, ln, params, rty = ent
+            its = items_of(f)
+            if key not in its: raise Unsupported(f"{f}: item `{key}` not found")
+            e = find_fragment_in_tokens(its[key], sel) if its[key]["kind"] == "error" else find_fragment(its[key]["body"], sel)
+            if e is None: raise Unsupported(f"{f}: `{key}`: fragment `{sel}` not found (or not unique)")
+            decls.append(("fragfx", key + " @ " + sel, ln, {"expr": e, "params": params, "rty": rty, "owner": its[key]["owner"]}, f))
+            continue
         if ent[0] == "frag":
             # ("frag", file, fn, selector, lean name, [(param, lean type)], lean result type)
             _, f, key, sel, ln, params, rty = ent
@@ -1639,6 +1686,7 @@ def translate_unit(unit, repo):
                 elif kind == "struct": out.append(("type", src + "\n" + em.struct(it)))
                 elif kind == "lean": out.append(("type", "-- handwritten in tools/rs2lean_spec.py (trusted)\n" + it["text"]))
                 elif kind == "closure": out.append(("fn", src + "\n" + em.closure_fn(key, ln, it)))
+                elif kind == "fragfx": out.append(("fn", src + "\n" + em.fragfx_fn(key, ln, it)))
                 elif kind == "frag":
                     em.cur_owner = it["owner"] or ""; em.cur_fn = key; em.cur_result = False; em.cur_self = None
                     out.append(("fn", src + "\n" + f"def {ln} " + " ".join(f"({n} : {t})" for n, t in it["params"]) + f" : {it['rty']} :=\n  " + em.ex(it["expr"])))
